@@ -184,6 +184,14 @@ def h_loadpaths(name, path):
                 ("copy", copy.copy(z_path)), ("deepcopy", copy.deepcopy(z_path))]
     for proto in (0, 2, 5):
         variants.append(("pickle%d" % proto, pickle.loads(pickle.dumps(z_path, proto))))
+    # a stream-loaded zone whose label happens to be the path of ANOTHER installed zone: copies and pickles carry the
+    # data they were built from, not whatever that path holds
+    other = os.path.join(os.path.dirname(os.path.dirname(path)) if "/" in name else os.path.dirname(path), "Asia", "Tokyo")
+    if name == "Asia/Tokyo" or not os.path.isfile(other):
+        other = path
+    z_lab = tz.tzfile(io.BytesIO(data), filename=other)
+    variants += [("stream-labelled", z_lab), ("pickle-of-labelled-stream", pickle.loads(pickle.dumps(z_lab, 2))),
+                 ("deepcopy-of-labelled-stream", copy.deepcopy(z_lab)), ("copy-of-labelled-stream", copy.copy(z_lab))]
     t = tzf.read_tzif_v1(data)
     lo, hi = tzf.span(t)
     types = dict(u=int)
